@@ -1,7 +1,7 @@
-(* C15 property theorems (statements only; proofs are in Proofs.v).
+(* C15 property theorems (statements only; proofs are in Proofs.v) — REPAIRED code (F18, F18b fixed).
    Spec.v: the abstract set of reasons and what a change of it asks of the server.
-   Model.v: one user's tracking entry (flags, state, queue, worker pc, retry timer, registry entry,
-   pending done-callback); retry delays from SlskGen.RetryGen (regenerated from user/manager.py).
+   Model.v: one user's tracking entry (flags, state, queue, worker pc, retry timer, registry entry);
+   retry delays from SlskGen.RetryGen (regenerated from user/manager.py).
    Theorems quantify over every event list (every interleaving of calls, worker steps, server
    behaviour, timer expiries, callback runs and server disconnects). *)
 From Slsk Require Import Base.Tac.
@@ -13,38 +13,41 @@ Open Scope nat_scope.
    [deq] logs every change (previous set, new set, is-retry-expiry) the worker has taken from its queue,
    [att] every AddUser / RemoveUser it has started to send.  The attempts are exactly what [expected]
    asks for, change by change, in order: AddUser on empty -> non-empty and on a retry expiry with a
-   non-empty set, RemoveUser on non-empty -> empty, nothing else ([pending] = the RemoveUser that is
-   due as soon as the cancelled retry task has finished). *)
-Theorem C15_sends_mirror : forall es,
-  att (run es) ++ pending (wpc (run es)) = flat_map expected (deq (run es)).
+   non-empty set, RemoveUser on non-empty -> empty, nothing else. *)
+Theorem C15_sends_mirror : forall es, att (run es) = flat_map expected (deq (run es)).
 Proof. exact sends_mirror. Qed.
 
-(* calls are queued in call order (or create a live entry) and the worker applies them in that order *)
+(* --- no call is ever lost ---------------------------------------------------------------------------
+   At every moment the reasons the entry stands for (its flags with the queued requests applied, 0 when
+   there is no entry) are exactly the abstract set of reasons: every track/untrack call is either
+   already applied or still queued for a live worker. *)
+Theorem C15_no_call_lost : forall es, reasons (run es) = spec_run es.
+Proof. exact no_call_lost. Qed.
+
 Theorem C15_call_enqueued : forall u f,
   (present u = true -> queue (fst (step u (Track f))) = queue u ++ [RAdd f] /\ queue (fst (step u (Untrack f))) = queue u ++ [RRem f]) /\
   (present u = false -> let u' := fst (step u (Track f)) in
      present u' = true /\ queue u' = [RAdd f] /\ flags u' = 0 /\ wpc u' = PIdle /\ fst (step u (Untrack f)) = u).
 Proof. exact call_enqueued. Qed.
 
-Theorem C15_dequeue_fifo : forall u r q, wpc u = PIdle -> queue u = r :: q ->
-  let u' := fst (step u WorkerStep) in queue u' = q /\ flags u' = apply_req r (flags u).
-Proof. exact dequeue_fifo. Qed.
+(* --- settled state ------------------------------------------------------------------------------------
+   Without an entry the state is UNTRACKED and the set of reasons is empty.  With an idle worker and an
+   empty queue the flags are the set of reasons, it is non-empty, the reported state is TRACKED exactly
+   when the last attempt was confirmed by the server, and it is TRACKED whenever no retry is pending. *)
+Theorem C15_settled_state : forall es, let u := run es in
+  (present u = false -> st u = Untracked /\ flags u = 0 /\ spec_run es = 0) /\
+  (wpc u = PIdle -> queue u = [] ->
+     flags u = spec_run es /\ spec_run es <> 0 /\
+     (st u = Tracked <-> conf u = true) /\
+     (armed u = None -> st u = Tracked)).
+Proof. exact settled_state. Qed.
 
-(* --- no call is lost: FALSE (finding F18) -------------------------------------------------------
-   The worker returns when flags = 0 and the queue is empty; the registry entry is removed by a
-   done-callback one iteration later; a track call in between is queued on the dead worker. *)
-Theorem C15_no_call_lost_refuted : exists es, spec_run es <> 0 /\ present (run es) = false /\ flags (run es) = 0 /\
-  att (run es) = [SAdd; SRem].
-Proof. exists f18_history. destruct no_call_lost_refuted as (A & B & C & D). rewrite A. repeat split; auto. Qed.
-
-(* --- settled state / retries ---------------------------------------------------------------------- *)
 (* TRACKED is reported only when the server confirmed that the user exists *)
 Theorem C15_tracked_only_on_exists : forall u ev, In (OState Tracked) (snd (step u ev)) ->
   ev = ServerReply RExists /\ wpc u = PWaitReply.
 Proof. exact tracked_only_on_exists. Qed.
 
-(* a retry is scheduled only after a failed attempt, with the documented delay for that failure
-   (constants regenerated from user/manager.py) *)
+(* --- retries ------------------------------------------------------------------------------------------- *)
 Theorem C15_retry_delay_documented : forall u ev d, In (OArm d) (snd (step u ev)) ->
   (ev = SendFails /\ wpc u = PSendAdd /\ d = RETRY_TIMEOUT_NET_ERROR) \/
   (ev = ServerReply RNotExists /\ wpc u = PWaitReply /\ d = RETRY_TIMEOUT_NON_EXISTING_USER) \/
@@ -56,8 +59,6 @@ Theorem C15_retry_delays_pinned : RETRY_TIMEOUT_NET_ERROR = 10%Z /\ RETRY_TIMEOU
   FLAG_REQUESTED = 1 /\ FLAG_TRANSFER = 2 /\ FLAG_FRIEND = 4.
 Proof. repeat split. Qed.
 
-(* a retry timer is armed only while a reason remains (so an expiry with an empty set can only come from
-   a request that was already queued, and [expected] asks nothing for it) *)
 Theorem C15_retry_only_with_reason : forall es d, armed (run es) = Some d ->
   flags (run es) <> 0 /\ (d = RETRY_TIMEOUT_NET_ERROR \/ d = RETRY_TIMEOUT_NON_EXISTING_USER).
 Proof. exact retry_only_with_reason. Qed.
@@ -65,33 +66,21 @@ Proof. exact retry_only_with_reason. Qed.
 Theorem C15_retry_with_empty_set_sends_nothing : forall r, expected (0, 0, r) = [].
 Proof. intros r. reflexivity. Qed.
 
-(* --- the server connection closes ---------------------------------------------------------------- *)
-(* Unless the worker is inside cancel_task at that moment: the retry timer is cancelled, the worker is
-   cancelled, sends nothing more, and the entry is gone after its last step and its done-callback. *)
-Theorem C15_closed_drops_all_partial : forall es, (forall prev, wpc (run es) <> PCancelRetry prev) ->
-  let u := run (es ++ [ServerClosed]) in
-  armed u = None /\ (wpc u = PDying \/ wpc u = PDone \/ wpc u = PGone) /\
-  snd (step u WorkerStep) = [] /\
-  wpc (run (es ++ [ServerClosed; WorkerStep; DoneCb])) = PGone.
-Proof. exact closed_drops_partial. Qed.
+(* --- the server connection closes: everything is dropped, whatever the worker was doing ------------------ *)
+Theorem C15_closed_drops_all : forall es, let u := run (es ++ [ServerClosed]) in
+  present u = false /\ flags u = 0 /\ st u = Untracked /\ queue u = [] /\ armed u = None /\ wpc u = PGone /\
+  (forall ev, snd (step u ev) = []).
+Proof. exact closed_drops_all. Qed.
 
-Theorem C15_dead_worker_silent : forall u ev, wpc u = PDying \/ wpc u = PDone \/ wpc u = PGone -> snd (step u ev) = [].
-Proof. exact dead_worker_silent. Qed.
-
-(* FALSE in general (finding F18b): cancel_task swallows the CancelledError, the worker survives the close,
-   keeps its queue and goes on sending and retrying although every reason was dropped. *)
-Theorem C15_closed_drops_all_refuted : exists es, In ServerClosed es /\ spec_run es = 0 /\ present (run es) = true /\
-  flags (run es) = 4 /\ armed (run es) = Some RETRY_TIMEOUT_NET_ERROR /\ att (run es) = [SAdd; SRem; SAdd].
-Proof. exists f18b_history. destruct closed_drops_refuted as (A & B & C & D & E). repeat split; auto. simpl. tauto. Qed.
-
-(* --- non-vacuity ------------------------------------------------------------------------------------ *)
+(* --- non-vacuity ------------------------------------------------------------------------------------------ *)
 Example C15_nonvacuous :
   (let es := [Track 1; WorkerStep; WorkerStep; ServerReply RSilence] in
-   armed (run es) = Some 10%Z /\ flags (run es) = 1 /\ wpc (run es) = PIdle /\ deq (run es) = [(0, 1, false)] /\
-   forall prev, wpc (run es) <> PCancelRetry prev) /\
-  (let es := [Track 3; WorkerStep; WorkerStep; ServerReply RExists; Track 4; WorkerStep; Untrack 7; WorkerStep] in
-   att (run es) = [SAdd; SRem] /\ st (run es) = Tracked /\ wpc (run es) = PSendRemove) /\
+   armed (run es) = Some 10%Z /\ flags (run es) = 1 /\ wpc (run es) = PIdle /\ deq (run es) = [(0, 1, false)]) /\
+  (let es := [Track 3; WorkerStep; WorkerStep; ServerReply RExists; Track 4; WorkerStep] in
+   wpc (run es) = PIdle /\ queue (run es) = [] /\ st (run es) = Tracked /\ conf (run es) = true /\ spec_run es = 7) /\
+  (let es := [Track 1; WorkerStep; WorkerStep; ServerReply RExists; Untrack 1; WorkerStep; WorkerStep; Track 2] in
+   present (run es) = true /\ reasons (run es) = 2 /\ att (run es) = [SAdd; SRem]) /\
   In (OState Tracked) (snd (step (run [Track 1; WorkerStep; WorkerStep]) (ServerReply RExists))) /\
   In (OArm 600%Z) (snd (step (run [Track 1; WorkerStep; WorkerStep]) (ServerReply RNotExists))) /\
-  wpc (run [Track 1; WorkerStep; WorkerStep; ServerReply RNotExists; Untrack 1; WorkerStep]) = PCancelRetry 1.
-Proof. repeat split; try discriminate; simpl; auto. Qed.
+  present (run [Track 1; WorkerStep; ServerClosed]) = false.
+Proof. repeat split; simpl; auto. Qed.
